@@ -1,6 +1,7 @@
 from __future__ import annotations
 
 import functools
+import math
 from itertools import product
 
 from dask._task_spec import Alias
@@ -100,10 +101,14 @@ class FromGraph(ArrayExpr):
             return (inferred, *block_id)
         raise ValueError(
             f"from_graph cannot find output block {block_id} (expected {expected or out_key}) in the layer. "
-            "This typically means the graph was optimized outside dask-array's control with a rewrite "
-            "that changed the output block structure (e.g. dask.persist on a raw sliding-window "
-            "reduction). Use the collection's own .persist()/.compute(), which pin the output keys."
+            + self._OUTSIDE_OPTIMIZATION_HINT
         )
+
+    _OUTSIDE_OPTIMIZATION_HINT = (
+        "This typically means the graph was optimized outside dask-array's control with a rewrite "
+        "that changed the output block structure (e.g. dask.persist on a raw sliding-window "
+        "reduction). Use the collection's own .persist()/.compute(), which pin the output keys."
+    )
 
     @functools.cached_property
     def _keys_by_block_id(self):
@@ -147,6 +152,21 @@ class FromGraph(ArrayExpr):
             if isinstance(value, GraphNode) or istask(value):
                 dsk[out_key] = Alias(out_key, layer_key)
             else:
+                # A rewrite may keep the number of blocks and move their
+                # boundaries: concrete data of another shape than the block we
+                # advertise must not be passed off under our key.
+                shape = getattr(value, "shape", None)
+                expected = tuple(c[i] for c, i in zip(self.chunks, block_id))
+                if (
+                    isinstance(shape, tuple)
+                    and len(shape) == len(expected)
+                    and all(isinstance(e, int) or not math.isnan(e) for e in expected)
+                    and shape != expected
+                ):
+                    raise ValueError(
+                        f"from_graph found a block of shape {shape} for output block {block_id}, "
+                        f"which is advertised with shape {expected}. " + self._OUTSIDE_OPTIMIZATION_HINT
+                    )
                 dsk[out_key] = value
                 del dsk[layer_key]
         return dsk
